@@ -36,6 +36,22 @@ fn expr_unit<I: Interrupt>(
 	context: &mut crate::Context,
 	int: &I,
 ) -> FResult<UnitDef> {
+	// unit definitions (and the exchange rate inserted below) are written with
+	// `.` as the decimal separator, whatever style the user chose for input and
+	// output: evaluate them in that style
+	let user_style = context.decimal_separator;
+	context.decimal_separator = crate::DecimalSeparatorStyle::Dot;
+	let result = expr_unit_inner(unit_def, attrs, context, int);
+	context.decimal_separator = user_style;
+	result
+}
+
+fn expr_unit_inner<I: Interrupt>(
+	unit_def: (Cow<'static, str>, Cow<'static, str>, Cow<'static, str>),
+	attrs: Attrs,
+	context: &mut crate::Context,
+	int: &I,
+) -> FResult<UnitDef> {
 	let (singular, plural, definition) = unit_def;
 	let mut definition = definition.trim();
 	if definition == "$CURRENCY" {
